@@ -489,7 +489,15 @@ class HistoryRun:
         elif kind == 'poke':
             # evaluate a cell that cannot be evaluated (a reference that cannot be resolved):
             # whatever it raises is the fault, the model has to stay usable
-            out = driver.step({'op': 'eval', 'a': op['a'], 'form': 'cell'})
+            if op.get('kind') == 'trim':
+                # trim_graph with an output on a sheet that does not exist: raises, the caller
+                # goes on with the model as it is
+                out = driver.step({'op': 'trim', 'inputs': op['inputs'], 'outputs': op['outputs']})
+                if 'exc' not in out:
+                    self.violate('exception', i, op, 'trim_graph with an unknown output raises',
+                                 out, exc='no exception')
+            else:
+                out = driver.step({'op': 'eval', 'a': op['a'], 'form': 'cell'})
             self.count('fault:evaluation-that-fails-while-the-graph-is-built'
                        if 'exc' in out else 'poke-returned-a-value')
             self.events.append((i, 'poke', op['a'], out.get('exc'), cache_digest(driver.model)))
